@@ -405,6 +405,27 @@ def cli_findings():
     r, calls = run('--- a/x.md\n+++ b/x.md\n@@ -1 +1 @@\n+z\n', ['-p', '1'])
     if calls is not None:
         found.append('rustfmt run although no file matches the filter')
+    # more diffs: a file whose only hunk adds nothing contributes neither a range nor a file; single-line hunks without counts; several files
+    def expect(diff, args, files_want, ranges_want, what):
+        r_, calls_ = run(diff, args)
+        if calls_ is None:
+            if files_want:
+                found.append('%s: rustfmt not run' % what)
+            return
+        try:
+            k = calls_.index('--file-lines')
+            js_ = json.loads(calls_[k + 1])
+            files_ = sorted(c for c in calls_[:k] if c and not c.startswith('-'))
+        except Exception:
+            found.append('%s: unexpected arguments %r' % (what, calls_))
+            return
+        if files_ != sorted(files_want) or js_ != ranges_want:
+            found.append('%s: files %r ranges %r, expected %r %r' % (what, files_, js_, sorted(files_want), ranges_want))
+    expect('--- a/src/a.rs\n+++ b/src/a.rs\n@@ -2,2 +1,0 @@ fn a() {\n-    x\n-    y\n--- a/src/b.rs\n+++ b/src/b.rs\n@@ -1,0 +2 @@ fn b() {\n+    z\n', ['-p', '1'],
+           ['src/b.rs'], [{'file': 'src/b.rs', 'range': [2, 2]}], 'a deletion-only file next to a file with an added line')
+    expect('--- a/src/l.rs\n+++ b/src/l.rs\n@@ -2 +2,2 @@\n-a\n+b\n+c\n@@ -7,0 +8,3 @@\n+d\n+e\n+f\n--- a/src/o.rs\n+++ b/src/o.rs\n@@ -1 +1 @@\n-x\n+y\n', ['-p', '1'],
+           ['src/l.rs', 'src/o.rs'], [{'file': 'src/l.rs', 'range': [2, 3]}, {'file': 'src/l.rs', 'range': [8, 10]}, {'file': 'src/o.rs', 'range': [1, 1]}],
+           'hunk headers without an old-side count (diff -U0)')
     r, calls = run(DIFF, ['-p', '1'], standin_exit=1)
     if r.returncode == 0:
         found.append('failing rustfmt but format-diff exits 0')
